@@ -121,10 +121,9 @@ def check_dc(net, opts, cnt):
     viols = []
     va = net.res_bus.va_degree
     if (va.abs() > 1e5).any():
-        # rundcpp solved a (near) singular system and returned garbage angles (known finding F29 of C07): the B-model cannot be
-        # evaluated on such values; the rows of those buses are outside this monitor
-        va = va.where(va.abs() <= 1e5)
-        cnt["dc_garbage_cases"] = 1
+        # rundcpp solved a singular system and returned garbage angles (finding F29 of C07, fixed by 05ea88b30)
+        viols.append(common.viol("rundcpp returned absurd voltage angles (max |va| = %.3e deg) with converged=True" % va.abs().max(), options=opts))
+        return viols, 0
     model = opts.get("trafo_model", "t")
     angles = bool(net._options["calculate_voltage_angles"])
     loaded = 0
